@@ -161,6 +161,14 @@ def build(rng):
                 o["kwargs"] = {k: fix(v) for k, v in o["kwargs"].items()}
                 if rng.random() < 0.5:
                     o["args"].append("")
+        # a declared variable called like a hoisted array (A<k>) whose value equals an argument array except for the sign of a
+        # zero: the argument must not be written as a reference to that variable
+        if rng.random() < 0.5:
+            arg = np.array([[-0.0, 1.5], [2.0, 0.0]][: rng.randint(1, 2)])
+            for k in rng.sample(range(4), rng.randint(1, 3)):
+                p._var["A%d" % k] = np.abs(arg) if rng.random() < 0.7 else arg.copy()
+            p._operations.append({"op": "Kgate", "modes": [0], "args": [arg], "kwargs": {}})
+            p._modes.add(0)
         # target / type OPTIONS are plain values in every program type: a string spelt like a p-name stays a string there
         if rng.random() < 0.6:
             if p._target["name"] is None:
